@@ -736,7 +736,7 @@ def n1_flag(ctx, rep):
     for p in pe.paths:
         if p.end != "stop:%d" % h:
             continue
-        arm = [v for (dk, v) in p.decisions if dk[0] == "discr" and dk[1][0] == "call" and dk[1][1][:2] == (body.path, s.bb)]
+        arm = [v.lstrip("*") for (dk, v) in p.decisions if dk[0] == "discr" and dk[1][0] == "call" and dk[1][1][:2] == (body.path, s.bb)]
         if not arm:
             continue
         n += 1
